@@ -331,11 +331,11 @@ crate::harnesses! {
     #[kani::unwind(2)] c08_int_rem_class: "quick", "<Value as Rem>::rem (Int,Int)", "a,b: all i64; which of Ok / RemainderByZero / IntegerOverflow";
     #[kani::unwind(2)] c08_uint_divrem_class: "quick", "<Value as Div>::div, <Value as Rem>::rem (UInt,UInt)", "a,b: all u64; Ok / DivisionByZero / RemainderByZero";
     #[kani::unwind(10)] c08_int_divrem_const_divisor: "quick", "<Value as Div>::div, <Value as Rem>::rem (Int,Int)", "a: all i64; b in {1,-1,2,-3,10,2^32,MAX,MIN}; values vs machine division";
-    #[kani::unwind(10)] c08_int_divrem_const_divisor2: "thorough", "<Value as Div>::div, <Value as Rem>::rem (Int,Int)", "a: all i64; b in {7,-7,60,-1000000007,2^31-1,-2^31,2^62,MIN+1}";
-    #[kani::unwind(10)] c08_int_divrem_const_dividend: "thorough", "<Value as Div>::div, <Value as Rem>::rem (Int,Int)", "b: all i64; a in {0,1,-1,MAX,MIN,MIN+1,2^53,-10^12}";
+    #[kani::unwind(10)] c08_int_divrem_const_divisor2: "off", "<Value as Div>::div, <Value as Rem>::rem (Int,Int)", "a: all i64; b in {7,-7,60,-1000000007,2^31-1,-2^31,2^62,MIN+1}";
+    #[kani::unwind(10)] c08_int_divrem_const_dividend: "off", "<Value as Div>::div, <Value as Rem>::rem (Int,Int)", "b: all i64; a in {0,1,-1,MAX,MIN,MIN+1,2^53,-10^12}";
     #[kani::unwind(8)] c08_uint_divrem_const_divisor: "quick", "<Value as Div>::div, <Value as Rem>::rem (UInt,UInt)", "a: all u64; b in {1,2,3,10,2^63,MAX}";
     #[kani::unwind(2)] c08_int_divrem_law: "quick", "<Value as Div>::div, <Value as Rem>::rem (Int,Int)", "|a| < 2^16, |b| < 2^8; law (a/b)*b+a%b==a, sign, magnitude";
-    #[kani::unwind(2)] c08_int_divrem_law_wide: "thorough", "<Value as Div>::div, <Value as Rem>::rem (Int,Int)", "|a| < 2^24, |b| < 2^12; same law";
+    #[kani::unwind(2)] c08_int_divrem_law_wide: "off", "<Value as Div>::div, <Value as Rem>::rem (Int,Int)", "|a| < 2^24, |b| < 2^12; same law";
     #[kani::unwind(5)] c08_mixed_add: "quick", "<Value as Add>::add on mixed Int/UInt/Float pairs", "6 ordered mixed kind pairs (enumerated concretely); payloads: all 64-bit patterns";
     #[kani::unwind(5)] c08_mixed_sub: "quick", "<Value as Sub>::sub on mixed Int/UInt/Float pairs", "6 ordered mixed kind pairs; payloads: all 64-bit patterns";
     #[kani::unwind(5)] c08_mixed_mul: "quick", "<Value as Mul>::mul on mixed Int/UInt/Float pairs", "6 ordered mixed kind pairs; payloads: all 64-bit patterns";
